@@ -4,6 +4,7 @@ Any schedule of API calls: the real representation and the expanded trie give th
 import NeoModel.Model.Mpt.LazyOps
 import NeoModel.Proofs.MptLazyBatch
 import NeoModel.Proofs.MptLazySeek
+import NeoModel.Proofs.MptLazyFind
 namespace NeoModel.Mpt
 
 variable {H : Bytes → Bytes}
@@ -46,6 +47,10 @@ theorem lstep_estep (h32 : ∀ b, (H b).length = 32) {F : Nat} (s : LState) (t :
       obtain ⟨l', hg', hrep⟩ := h1 ps hl
       simp [hg', hrep]; exact hst
   | root => simp [lstep, estep, lrootHash_rep hr, hr]; exact hst
+  | find pre frm m =>
+    obtain ⟨h1, h2⟩ := lfind_rep (H := H) (S := s.store) F s.root t pre frm m hr hg.2.2
+    simp only [lstep, estep]
+    exact ⟨by rw [h1], h2, hst⟩
   | seek pre st back =>
     have hd : dirty = false := by simpa [allowed] using hok
     have hro := lreopen_rep hr (hst hd)
